@@ -27,7 +27,7 @@ PROPS = {
         rule=("case = (kernel group, N, block of residues p mod 2N | special class list | sampled block | wrapper "
               "call sequence); distinct by descriptor hash; non-trivial when N >= 2 (maps differ from identity "
               "for some p in the block)"),
-        require={"all": ["rot_p_checked", "auto_p_checked", "wrapper_calls", "inplace_unequal_size_calls", "cross_dimension_sequences", "concurrent_map_calls", "auto_branch:cycles",
+        require={"all": ["rot_p_checked", "auto_p_checked", "wrapper_calls", "wrapper_dispatch:generic", "inplace_unequal_size_calls", "cross_dimension_sequences", "concurrent_map_calls", "auto_branch:cycles",
                          "auto_branch:mirror", "auto_branch:negate", "auto_branch:negamirror",
                          "auto_branch:identity"]},
         assumptions=["index-map oracle uses 128-bit Euclidean remainders; probe a_i=i+1 is injective so one probe "
@@ -54,7 +54,7 @@ PROPS = {
         rule=("case = one call (operation, level module/kernel, module type, dispatch, N, res/a/b limb counts, stride "
               "choices, extra-limb flag); distinct by descriptor hash; non-trivial when res_size >= 1 and at least one "
               "source limb is used"),
-        require={"all": ["limbs_compared", "dispatch:native", "dispatch:generic", "dispatch:kernel-avx", "dispatch:kernel-ref", "aliased_calls", "interleaved_view_calls"]},
+        require={"all": ["limbs_compared", "dispatch:native", "dispatch:generic", "dispatch:kernel-avx", "dispatch:kernel-ref", "aliased_calls", "interleaved_view_calls", "concurrent_vector_calls"]},
         assumptions=["per-limb definition evaluated by the harness (missing limb = 0)",
                      "stride padding and guard bands are ASan-poisoned and carry canaries; inputs are byte-snapshotted", ASAN_NOTE],
     ),
@@ -64,7 +64,7 @@ PROPS = {
         rule=("case = one product through one FFT64 path (small single product | svp_prepare+svp_apply_dft+idft | "
               "...+idft_tmp_a) for (N, operand family, dispatch, res/a limb counts, stride, repetition); distinct by "
               "descriptor hash; non-trivial when both operands are non-zero, N >= 4 and at least one row is produced"),
-        require={"all": ["products_checked", "exact_regime_products", "budget_regime_products", "frontier_products",
+        require={"all": ["products_checked", "exact_regime_products", "budget_regime_products", "frontier_products", "lifecycle_products", "idft_variant:idft(res==a_dft),short-dft",
                          "zero_rows_checked", "oracle_selfcheck_ok"]},
         assumptions=["exact oracle: schoolbook with 128-bit accumulators, or an oracle-side NTT modulo a 62-bit prime "
                      "(cross-checked against schoolbook at start-up)",
@@ -76,7 +76,7 @@ PROPS = {
         rule=("case = one (N, nrows, ncols, a_size, res_size, a stride, dispatch, operand magnitude class) shape: "
               "prepare + both apply entry points + inverse DFT; distinct by descriptor hash; non-trivial when "
               "min(nrows,a_size) >= 1 and min(ncols,res_size) >= 1 (zero-size classes are counted separately)"),
-        require={"all": ["shapes_checked", "columns_checked", "zero_columns_checked", "exact_regime_columns", "zero_polynomial_matrix_entries",
+        require={"all": ["shapes_checked", "columns_checked", "zero_columns_checked", "exact_regime_columns", "zero_polynomial_matrix_entries", "concurrent_prepare_apply_calls",
                          "layout:column-major(N<8)", "layout:blocked", "layout:blocked(one block)"]},
         assumptions=["exact oracle per (row, column) product summed in 128-bit integers; budget = sum of the C01 "
                      "budgets of the rows + 1/2", "scratch buffers are exactly *_tmp_bytes and NaN-prefilled", ASAN_NOTE],
@@ -87,7 +87,7 @@ PROPS = {
         rule=("case = one product-kernel call (kernel, ref/avx2, ell, operand families of x and y) or one batch of "
               "conversions / block copies (nn, repetition); distinct by descriptor hash; non-trivial when ell >= 1 or "
               "the conversion input is non-empty"),
-        require={"all": ["product_lanes_checked", "conversion_values_checked", "blocks_checked"]},
+        require={"all": ["product_lanes_checked", "conversion_values_checked", "blocks_checked", "concurrent_kernel_calls"]},
         assumptions=["oracle: operands reduced modulo each prime, products accumulated with 128-bit arithmetic; CRT "
                      "constants recomputed by the oracle", ASAN_NOTE],
     ),
@@ -97,7 +97,7 @@ PROPS = {
         rule=("case = (n, lane family, table set, repetition) transform batch (round trip + linearity + convolution), "
               "an evaluation-map check, or one module-level dft/idft call (N, a/dft/res limb counts, stride, variant); "
               "distinct by descriptor hash; non-trivial when n >= 2 and the input is not constant zero"),
-        require={"all": ["roundtrips_checked", "linearity_checked", "convolutions_checked", "horner_evaluations",
+        require={"all": ["roundtrips_checked", "linearity_checked", "convolutions_checked", "horner_evaluations", "spectrum_limbs_checked", "concurrently_built_tables",
                          "module_roundtrip_limbs"]},
         assumptions=["oracle works on the residues of the 64-bit lanes modulo each prime; convolution by schoolbook "
                      "(n<=256) or an oracle-side NTT with its own root search",
@@ -111,7 +111,7 @@ PROPS = {
         rule=("case = one product-kernel call on worst-case operands (kernel, ref/avx2, ell, x/y family) or one traced "
               "transform batch (n, lane family, repetition: ntt, intt of its output, intt and ntt on the raw lanes); "
               "distinct by descriptor hash; non-trivial when ell >= 1 / n >= 2 with at least one lane >= 2^63"),
-        require={"all": ["product_lanes_checked", "max_ell_products", "h2_stage_events", "h2_traced_transforms", "concurrently_built_tables"]},
+        require={"all": ["product_lanes_checked", "max_ell_products", "h2_stage_events", "h2_traced_transforms", "concurrently_built_tables", "concurrent_kernel_calls"]},
         assumptions=["hook H2 reports every stage of the real schedule; the shadow re-executes it in 128-bit arithmetic "
                      "from the library's own metadata and must reproduce the real lanes bit for bit",
                      "the interval envelope is reported as information (conservative bounds), never as a violation",
@@ -127,7 +127,7 @@ PROPS = {
               "transform twice on a guarded exact-size buffer; distinct by descriptor hash; non-trivial when m >= 2 "
               "and the input is non-zero"),
         require={"all": ["transforms_checked", "horner_validations", "impl:dispatch-native", "impl:dispatch-generic",
-                         "impl:ref-direct", "impl:avx2-direct", "impl:leaf-avx", "impl:leaf-ref", "impl:bfs16-ref", "impl:builtin-buffers", "impl:naive",
+                         "impl:ref-direct", "impl:avx2-direct", "impl:leaf-avx", "impl:leaf-ref", "impl:bfs16-ref", "impl:builtin-buffers", "impl:naive", "tables_built_concurrently", "cold_process_constructions",
                          "impl:rec16-ref"]},
         assumptions=["long-double FFT oracle (own twiddles by cosl/sinl), its rounding (about log2(m) 2^-64 relative) "
                      "added to the tolerance; validated per case against __float128 Horner evaluation at sampled outputs",
@@ -204,7 +204,7 @@ PROPS = {
               "points of the phase on private data against the shared modules/tables; distinct by descriptor hash; "
               "non-trivial when at least one pair of calls from different threads overlapped in time"),
         require={"all": ["concurrent_calls", "overlapping_call_pairs", "tsan_instrumented_calls", "ro_protected_bytes",
-                         "schedule:free", "schedule:pinned-2cpu", "schedule:yield", "concurrent_constructions",
+                         "schedule:free", "schedule:pinned-2cpu", "schedule:yield", "concurrent_constructions", "first_use_cases", "shared_objects_dispatch:generic", "shared_objects_dispatch:native",
                          "entry_points_observed_concurrently", "overlap_pairs"]},
         assumptions=["gcc ThreadSanitizer happens-before detection (does not see accesses made inside the four .s kernels, "
                      "which only touch caller data)", "in the 'ro' build every allocation made while creating modules and "
